@@ -18,3 +18,15 @@ def run(ck):
     ck.sample({"helper_chain_depth": len(x["layers"]), "configs": x["configs"][:4]})
     sc.run_stacks(ck, st, only="c17")
     ck.bound("positional_helper_depths", "1..10")
+    # read-back only, for the configuration values the evaluated stacks above cannot carry: boxes (clamp, out-of-range
+    # default) in every order relation of their bounds per axis (lo < hi, lo = hi, lo > hi).  StackMC's boxes have
+    # lo <= hi because every enumerated stack is also evaluated; a configuration is nevertheless a value that must be
+    # reported as given on every constructor path (positional pack, (configuration, backend), copy, move, assignment).
+    for fl in (("asan", "rel") if not ck.quick else ("asan",)):
+        b = ck.build("h_cfgbox", "h_cfgbox.cpp", fl)
+        if b:
+            rc, out, err = ck.run([b], timeout=300)
+            s = ck.harness_output("cfgbox-" + fl, rc, out, err)
+            ck.cov["impl_checks"] += s.get("checks", 0)
+            ck.cov["cases_replayed"] += s.get("cases", 0)
+    ck.bound("box_bound_order_relations_per_axis", ["lo<hi", "lo=hi", "lo>hi"])
